@@ -197,9 +197,15 @@ Emit == EmitOps => PrintT(<<"VERIF_OPS", ToJson(ops')>>)
 
 (* ---- random walks for generation: draw the kind of call first ---- *)
 KindSets == <<CallsWByte, CallsWrite, CallsWrite, CallsWBlock, CallsWBlock, CallsWBlock, CallsFlush, CallsReset>>
+(* Up to four argument tuples are drawn; the first whose first attempt is   *)
+(* not rejected as malformed is taken (rejected blocks still occur).       *)
 WalkStart ==
   \E i \in {RandomElement({j \in 1..Len(KindSets) : Len(ops) >= 0})} :
-    \E c \in {RandomElement(KindSets[i])} : Start(c)
+    LET good(c) == c.op # "dec.wblock" \/
+                   IWriteBlock(buf, c.seqs, c.lits, FALSE).ev.err \in {"", "full"}
+    IN \E c1 \in {RandomElement(KindSets[i])} : \E c2 \in {RandomElement(KindSets[i])} :
+       \E c3 \in {RandomElement(KindSets[i])} : \E c4 \in {RandomElement(KindSets[i])} :
+         Start(IF good(c1) THEN c1 ELSE IF good(c2) THEN c2 ELSE IF good(c3) THEN c3 ELSE c4)
 WalkNext == IF pc = "idle" THEN WalkStart ELSE Step
 WalkSpec == Init /\ [][WalkNext]_vars
 =============================================================================
